@@ -1,5 +1,249 @@
-"""symbolic strings (filled in by the text harnesses)"""
+"""Symbolic strings: concrete length, each character a concrete or symbolic code point (SymInt in [0, 0x10FFFF])."""
+import builtins
+
+from . import engine as E
+from .engine import SymInt, SymNum, ModelGap, And, Or, Not, cur
+
+
+def _cp_of(x):
+    """list of code points of a str / SymStr"""
+    if isinstance(x, SymStr):
+        return list(x.cps)
+    if isinstance(x, str):
+        return [builtins.ord(c) for c in x]
+    raise TypeError("can only concatenate str to str")
+
+
+def _conc(c):
+    return isinstance(c, int)
+
+
+class SymStr(object):
+    __symbolic__ = True
+    __hash__ = None
+
+    def __init__(self, cps):
+        self.cps = list(cps)
+
+    @staticmethod
+    def lift(s):
+        return s if isinstance(s, SymStr) else SymStr(_cp_of(s))
+
+    @staticmethod
+    def fresh(e, name, n, lo=0, hi=0x10FFFF, exclude_surrogates=True):
+        cps = []
+        for i in range(n):
+            c = e.integer("%s_%d" % (name, i), lo, hi)
+            if exclude_surrogates and lo <= 0xDFFF and hi >= 0xD800:
+                e.assume(Or(c < 0xD800, c > 0xDFFF))
+            cps.append(c)
+        return SymStr(cps)
+
+    def simplify(self):
+        """plain str when every character is concrete"""
+        if all(_conc(c) or (isinstance(c, SymInt) and not c.lin.t) for c in self.cps):
+            return "".join(builtins.chr(c if _conc(c) else int(c.lin.c)) for c in self.cps)
+        return self
+
+    # ---- sequence protocol
+    def __len__(self):
+        return len(self.cps)
+
+    def __iter__(self):
+        for c in self.cps:
+            yield SymStr([c]).simplify()
+
+    def __getitem__(self, k):
+        if isinstance(k, slice):
+            return SymStr(self.cps[k]).simplify()
+        if isinstance(k, SymInt):
+            k = k.__index__()
+        return SymStr([self.cps[k]]).simplify()
+
+    def __add__(self, o):
+        if not isinstance(o, (str, SymStr)):
+            return NotImplemented
+        return SymStr(self.cps + _cp_of(o)).simplify()
+
+    def __radd__(self, o):
+        if not isinstance(o, (str, SymStr)):
+            return NotImplemented
+        return SymStr(_cp_of(o) + self.cps).simplify()
+
+    def __mul__(self, k):
+        return SymStr(self.cps * k).simplify()
+
+    # ---- comparisons
+    def __eq__(self, o):
+        if not isinstance(o, (str, SymStr)):
+            return False
+        b = _cp_of(o)
+        if len(b) != len(self.cps):
+            return False
+        return And(*[(x == y) if (isinstance(x, SymInt) or isinstance(y, SymInt)) else (x == y) for x, y in zip(self.cps, b)])
+
+    def __ne__(self, o):
+        return Not(self.__eq__(o))
+
+    def _lex(self, o, strict):
+        b = _cp_of(o)
+        a = self.cps
+        # a < b lexicographically
+        alts = []
+        pre = []
+        for i in range(min(len(a), len(b))):
+            alts.append(And(*(pre + [a[i] < b[i]])))
+            pre.append(a[i] == b[i])
+        if len(a) < len(b):
+            alts.append(And(*pre))
+        elif len(a) == len(b) and not strict:
+            alts.append(And(*pre))
+        return Or(*alts)
+
+    def __lt__(self, o):
+        return self._lex(o, True)
+
+    def __le__(self, o):
+        return self._lex(o, False)
+
+    def __gt__(self, o):
+        return SymStr.lift(o)._lex(self, True)
+
+    def __ge__(self, o):
+        return SymStr.lift(o)._lex(self, False)
+
+    def __bool__(self):
+        return len(self.cps) > 0
+
+    def __contains__(self, o):
+        raise ModelGap("substring test on a symbolic string")
+
+    # ---- str methods used by labella
+    def upper(self):
+        out = []
+        for c in self.cps:
+            if _conc(c):
+                u = builtins.chr(c).upper()
+                if len(u) != 1:
+                    raise ModelGap("upper() changing length")
+                out.append(builtins.ord(u))
+            else:
+                # ASCII letters only are modelled; other characters must be proven outside a-z and caseless is not claimed
+                if cur().branch(And(c >= 97, c <= 122)):
+                    out.append(c - 32)
+                elif cur().branch(c < 128):
+                    out.append(c)
+                else:
+                    raise ModelGap("upper() of a non-ASCII symbolic character")
+        return SymStr(out).simplify()
+
+    def lower(self):
+        out = []
+        for c in self.cps:
+            if _conc(c):
+                out.append(builtins.ord(builtins.chr(c).lower()))
+            elif cur().branch(And(c >= 65, c <= 90)):
+                out.append(c + 32)
+            elif cur().branch(c < 128):
+                out.append(c)
+            else:
+                raise ModelGap("lower() of a non-ASCII symbolic character")
+        return SymStr(out).simplify()
+
+    def startswith(self, p):
+        p = _cp_of(p)
+        if len(p) > len(self.cps):
+            return False
+        r = And(*[a == b for a, b in zip(self.cps, p)])
+        return r if isinstance(r, bool) else bool(r)
+
+    def split(self, *a):
+        raise ModelGap("split of a symbolic string")
+
+    def __sym_int__(self, base=10):
+        """int(s, base) for base 16/10 on symbolic digits: forks on the class of every character"""
+        if base not in (10, 16):
+            raise ModelGap("int(s, %r)" % (base,))
+        if not self.cps:
+            raise ValueError("invalid literal for int() with base %d: ''" % base)
+        val = 0
+        e = cur()
+        for c in self.cps:
+            if _conc(c):
+                d = builtins.int(builtins.chr(c), base)
+            elif e.branch(And(c >= 48, c <= 57)):
+                d = c - 48
+            elif base == 16 and e.branch(And(c >= 97, c <= 102)):
+                d = c - 87
+            elif base == 16 and e.branch(And(c >= 65, c <= 70)):
+                d = c - 55
+            else:
+                raise ValueError("invalid literal for int() with base %d" % base)
+            val = val * base + d
+        return val
+
+    def __sym_format__(self, spec):
+        if spec in ("%s", "s", ""):
+            return self
+        raise ModelGap("format %r of a symbolic string" % spec)
+
+    def __format__(self, spec):
+        raise ModelGap("str.format of a symbolic string")
+
+    def __str__(self):
+        raise ModelGap("str() of a symbolic string (would concretise)")
+
+    def __repr__(self):
+        return "SymStr(%r)" % (self.cps,)
+
+
+def shim_ord(c):
+    if isinstance(c, SymStr):
+        if len(c.cps) != 1:
+            raise TypeError("ord() expected a character, but string of length %d found" % len(c.cps))
+        return c.cps[0]
+    return builtins.ord(c)
+
+
+def shim_chr(i):
+    if isinstance(i, SymInt):
+        if not i.lin.t:
+            return builtins.chr(int(i.lin.c))
+        if cur().branch(Or(i < 0, i > 0x10FFFF)):
+            raise ValueError("chr() arg not in range(0x110000)")
+        return SymStr([i])
+    return builtins.chr(i)
+
+
+def shim_tuple(x=()):
+    if isinstance(x, SymStr):
+        return builtins.tuple(iter(x))
+    return builtins.tuple(x)
+
+
+def shim_list(x=()):
+    if isinstance(x, SymStr):
+        return builtins.list(iter(x))
+    return builtins.list(x)
+
+
+def sym_join(sep, items):
+    items = builtins.list(items)
+    if isinstance(sep, str) and all(isinstance(i, str) for i in items):
+        return sep.join(items)
+    out = SymStr([])
+    for k, it in enumerate(items):
+        if not isinstance(it, (str, SymStr)):
+            raise TypeError("sequence item %d: expected str instance" % k)
+        if k:
+            out = SymStr.lift(out + sep)
+        out = SymStr.lift(out + it)
+    return SymStr.lift(out).simplify()
 
 
 def install(module):
-    pass
+    g = module.__dict__
+    g["ord"] = shim_ord
+    g["chr"] = shim_chr
+    g["tuple"] = shim_tuple
+    g["list"] = shim_list
